@@ -132,8 +132,18 @@ Definition nlen {A} (l : list A) : N := N.of_nat (length l).
 
 Definition nth_N {A} (l : list A) (i : N) : option A := nth_error l (N.to_nat i).
 
-Definition firstn_N {A} (n : N) (l : list A) : list A := firstn (N.to_nat n) l.
-Definition skipn_N {A} (n : N) (l : list A) : list A := skipn (N.to_nat n) l.
+(* firstn / skipn with a binary count (no unary conversion of the count, so
+   asking for 2^20 bytes of a 17-byte list costs 17 steps) *)
+Fixpoint firstn_N {A} (n : N) (l : list A) : list A :=
+  match l with
+  | [] => []
+  | x :: r => if n =? 0 then [] else x :: firstn_N (N.pred n) r
+  end.
+Fixpoint skipn_N {A} (n : N) (l : list A) : list A :=
+  match l with
+  | [] => []
+  | x :: r => if n =? 0 then l else skipn_N (N.pred n) r
+  end.
 
 Definition sum_N (l : list N) : N := fold_left N.add l 0.
 
